@@ -187,7 +187,85 @@ double complex _vnacommon_mldivide(complex double *x, complex double *a,
 	x[i] = nondet_double();
     return nondet_double();
 }
+
+/* ASSUMED CONTRACTS: QR factorisation and its solve step produce some matrices / some solution */
+int _vnacommon_qr(complex double *a, complex double *q, complex double *r, int rows, int columns)
+{
+    int rank = nondet_int();
+
+    (void)a;
+    __CPROVER_assume(rank >= 0 && rank <= (rows < columns ? rows : columns));
+    for (int i = 0; i < rows * rows; ++i)
+	q[i] = nondet_double();
+    for (int i = 0; i < rows * columns; ++i)
+	r[i] = nondet_double();
+    return rank;
+}
+
+void _vnacommon_qrsolve2(double complex *x, const double complex *q,
+	const double complex *r, const double complex *b, int m, int n, int o)
+{
+    (void)q; (void)r; (void)b; (void)m;
+    for (int i = 0; i < n * o; ++i)
+	x[i] = nondet_double();
+}
 #endif
+
+/*
+ * Unknown standard parameters count as unknowns: a through, short and open
+ * on port 1 and TWO unknown reflects on port 2 of a 2x2 T8 calibration give
+ * 8 equations for 7 error terms + 2 parameters.  vnacal_new_solve must fail
+ * with EDOM (and stay usable), whatever the numeric kernels would return.
+ */
+void h_solve_too_few_unknown(void)
+{
+    IN_ARR(double, mv, 8);
+    double f[1] = { 1.0e9 };
+    double complex c[8];
+    double complex *r1[1] = { &c[0] }, *r2[1] = { &c[1] }, *r3[1] = { &c[2] }, *r4[1] = { &c[3] };
+    double complex *t[4] = { &c[4], &c[5], &c[6], &c[7] };
+    vnacal_t *vcp;
+    vnacal_new_t *vnp;
+    int ua, ub, eq0, rc;
+
+    for (int i = 0; i < 8; ++i)
+	c[i] = mv[i];
+    ghost_err_reset();
+    vcp = vnacal_create(verif_error_fn, NULL);
+    ASSUME(vcp != NULL);
+    ua = vnacal_make_unknown_parameter(vcp, VNACAL_SHORT);
+    ub = vnacal_make_unknown_parameter(vcp, VNACAL_OPEN);
+    ASSUME(ua == 3 && ub == 4);
+    vnp = vnacal_new_alloc(vcp, CAL_TYPE, 2, 2, 1);
+    ASSUME(vnp != NULL);
+    ASSUME(vnacal_new_set_frequency_vector(vnp, f) == 0);
+    ASSUME(vnacal_new_set_iteration_limit(vnp, 1) == 0);
+    ASSUME(vnacal_new_add_through_m(vnp, t, 2, 2, 1, 2) == 0);
+    ASSUME(vnacal_new_add_single_reflect_m(vnp, r1, 1, 1, VNACAL_SHORT, 1) == 0);
+    ASSUME(vnacal_new_add_single_reflect_m(vnp, r2, 1, 1, VNACAL_OPEN, 1) == 0);
+    ASSUME(vnacal_new_add_single_reflect_m(vnp, r3, 1, 1, ua, 2) == 0);
+    ASSUME(vnacal_new_add_single_reflect_m(vnp, r4, 1, 1, ub, 2) == 0);
+    CHECK(wf_counts(vnp) && vnp->vn_unknown_parameters == 2, "two unknown standard parameters, counts match the lists");
+    ASSUME(vnp->vn_systems == 1 &&
+	    vnp->vn_equations >= vnp->vn_layout.vl_t_terms - 1 &&
+	    vnp->vn_equations < vnp->vn_layout.vl_t_terms - 1 + 2);
+    REACH("enough equations for the error terms but not for the unknown parameters too");
+    eq0 = vnp->vn_equations;
+    CHECK(ghost_err_calls == 0, "set-up is silent");
+
+    rc = vnacal_new_solve(vnp);
+    REACH("solve returned");
+    CHECK(rc == -1, "fewer equations than error terms plus unknown standard parameters: solve fails");
+    CHECK(ghost_err_calls == 1 && ghost_err_category == VNAERR_MATH && errno == EDOM,
+	    "the failure is reported once as a math error (EDOM)");
+    CHECK(vnp->vn_calibration == NULL, "no calibration is invented");
+    CHECK(wf_counts(vnp) && vnp->vn_equations == eq0 && vnp->vn_measurement_count == 5,
+	    "the accumulated standards are untouched");
+    vnacal_new_free(vnp);
+    (void)vnacal_delete_parameter(vcp, ua);
+    (void)vnacal_delete_parameter(vcp, ub);
+    vnacal_free(vcp);
+}
 
 void h_solve_uneven(void)
 {
@@ -231,6 +309,149 @@ void h_solve_uneven(void)
     CHECK(wf_counts(vnp) && vnp->vn_equations == eq0 && vnp->vn_measurement_count == 5,
 	    "the accumulated standards are untouched");
     vnacal_new_free(vnp);
+    vnacal_free(vcp);
+}
+
+/*
+ * C01, leakage terms outside the linear system (TE10, UE10, UE14, E12): at
+ * each frequency the leakage term of an off-diagonal cell is the average of
+ * the measurements of that cell over the standards whose two ports are NOT
+ * connected through the standard - connected meaning joined by a chain of
+ * non-zero S cells, not merely "S of that cell is non-zero".
+ *   standard A: 3-port divider, S12 S13 (and transposes) non-zero, S23 = S32
+ *               = 0: ports 2 and 3 are connected through port 1 -> no cell
+ *               of A is a leakage sample;
+ *   standard B: shorts on ports 1 and 2, port 3 open-circuited (unused): no
+ *               two ports connected -> every measured off-diagonal cell of B
+ *               is a leakage sample.
+ */
+void h_leakage_samples(void)
+{
+    IN_ARR(double, ma, 9);
+    IN_ARR(double, mb, 9);
+    static double f[1] = { 1.0e9 };
+    double complex ca[9], cb[9];
+    double complex *mA[9], *mB[9];
+    vnacal_t *vcp;
+    vnacal_new_t *vnp;
+    vnacal_new_solve_state_t vnss;
+    int t12, t13, refl, sA[9], sB[4], mapB[2] = { 1, 2 };
+
+    for (int i = 0; i < 9; ++i) {
+	ASSUME(ma[i] == ma[i] && mb[i] == mb[i]);	/* no NaN: sums are compared with == */
+	ca[i] = ma[i]; cb[i] = mb[i];
+	mA[i] = &ca[i]; mB[i] = &cb[i];
+    }
+    ghost_err_reset();
+    vcp = vnacal_create(verif_error_fn, NULL);
+    ASSUME(vcp != NULL);
+    t12 = vnacal_make_scalar_parameter(vcp, 0.5);
+    t13 = vnacal_make_scalar_parameter(vcp, 0.25);
+    refl = vnacal_make_scalar_parameter(vcp, 0.125);
+    ASSUME(t12 == 3 && t13 == 4 && refl == 5);
+    sA[0] = refl; sA[1] = t12;         sA[2] = t13;
+    sA[3] = t12;  sA[4] = refl;        sA[5] = VNACAL_ZERO;
+    sA[6] = t13;  sA[7] = VNACAL_ZERO; sA[8] = refl;
+    sB[0] = VNACAL_SHORT; sB[1] = VNACAL_ZERO; sB[2] = VNACAL_ZERO; sB[3] = VNACAL_SHORT;
+    vnp = vnacal_new_alloc(vcp, CAL_TYPE, 3, 3, 1);
+    ASSUME(vnp != NULL);
+    ASSUME(vnacal_new_set_frequency_vector(vnp, f) == 0);
+    ASSUME(vnacal_new_add_mapped_matrix_m(vnp, mA, 3, 3, sA, 3, 3, NULL) == 0);
+    ASSUME(vnacal_new_add_mapped_matrix_m(vnp, mB, 3, 3, sB, 2, 2, mapB) == 0);
+    CHECK(ghost_err_calls == 0, "set-up is silent");
+    ASSUME(vs_init(&vnss, vnp) == 0);
+    ASSUME(vs_start_frequency(&vnss, 0) == 0);
+    REACH("leakage samples accumulated");
+    CHECK(vnss.vnss_leakage_matrix != NULL, "this type keeps leakage terms outside the linear system");
+    if (vnss.vnss_leakage_matrix != NULL) {
+	for (int r = 0; r < 3; ++r)
+	    for (int c = 0; c < 3; ++c) {
+		int cell = r * 3 + c;
+		const vnacal_new_leakage_term_t *lt = vnss.vnss_leakage_matrix[cell];
+
+		if (r == c)
+		    continue;
+		CHECK(lt != NULL && lt->vnlt_count == 1,
+			"exactly the standards whose two ports are not connected through the standard contribute a leakage sample");
+		if (lt != NULL && lt->vnlt_count == 1)
+		    CHECK(creal(lt->vnlt_sum) == mb[cell],
+			    "the sample is that standard's measurement of that cell");
+	    }
+    }
+    vs_free(&vnss);
+    vnacal_new_free(vnp);
+    (void)vnacal_delete_parameter(vcp, t12);
+    (void)vnacal_delete_parameter(vcp, t13);
+    (void)vnacal_delete_parameter(vcp, refl);
+    vnacal_free(vcp);
+}
+
+/*
+ * The TRL short-cut test (_vnacal_new_solve_is_trl / classify_standard) runs
+ * at every solve of a 2x2 T8/U8/TE10/UE10 calibration with exactly three
+ * standards and two unknown parameters - e.g. in the "solve after each
+ * addition" flow of C20.  It must classify ANY such set of standards without
+ * touching unspecified S cells, and say "TRL" only for through + reflect (the
+ * same unknown on both ports) + line (unknown transmission, zero reflection).
+ */
+#ifndef TRL_VARIANT
+#define TRL_VARIANT 0
+#endif
+void h_is_trl(void)
+{
+    IN_ARR(double, mv, 4);
+    double f[1] = { 1.0e9 };
+    double complex c[4];
+    double complex *m[4] = { &c[0], &c[1], &c[2], &c[3] };
+    double complex *m1[1] = { &c[0] };
+    vnacal_t *vcp;
+    vnacal_new_t *vnp;
+    vnacal_new_trl_indices_t vnti;
+    int g1, g2, r, l, line[4];
+    _Bool is;
+
+    for (int i = 0; i < 4; ++i)
+	c[i] = mv[i];
+    ghost_err_reset();
+    vcp = vnacal_create(verif_error_fn, NULL);
+    ASSUME(vcp != NULL);
+    g1 = vnacal_make_scalar_parameter(vcp, -0.5);
+    g2 = vnacal_make_scalar_parameter(vcp, 0.25);
+    r = vnacal_make_unknown_parameter(vcp, g1);
+    l = vnacal_make_unknown_parameter(vcp, g2);
+    ASSUME(g1 == 3 && g2 == 4 && r == 5 && l == 6);
+    line[0] = VNACAL_ZERO; line[1] = l; line[2] = l; line[3] = VNACAL_ZERO;
+    vnp = vnacal_new_alloc(vcp, CAL_TYPE, 2, 2, 1);
+    ASSUME(vnp != NULL);
+    ASSUME(vnacal_new_set_frequency_vector(vnp, f) == 0);
+    ASSUME(vnacal_new_add_through_m(vnp, m, 2, 2, 1, 2) == 0);
+#if TRL_VARIANT == 0		/* proper TRL: reflect is the same unknown on both ports */
+    ASSUME(vnacal_new_add_double_reflect_m(vnp, m, 2, 2, r, r, 1, 2) == 0);
+#elif TRL_VARIANT == 1		/* single reflect on port 2, full M: S11 unspecified */
+    ASSUME(vnacal_new_add_single_reflect_m(vnp, m, 2, 2, r, 2) == 0);
+#elif TRL_VARIANT == 2		/* single reflect on port 1, 1x1 M: three cells unspecified */
+    ASSUME(vnacal_new_add_single_reflect_m(vnp, m1, 1, 1, r, 1) == 0);
+#endif
+    ASSUME(vnacal_new_add_line_m(vnp, m, 2, 2, line, 1, 2) == 0);
+    ASSUME(vnp->vn_measurement_count == 3 && vnp->vn_unknown_parameters == 2);
+    CHECK(ghost_err_calls == 0, "set-up is silent");
+
+    is = _vnacal_new_solve_is_trl(vnp, &vnti);
+    REACH("is_trl returned");
+#if TRL_VARIANT == 0
+    CHECK(is && vnti.vnti_t_standard == 0 && vnti.vnti_r_standard == 1 && vnti.vnti_l_standard == 2,
+	    "through + reflect + line is recognised with the standards in the order given");
+    CHECK(vnti.vnti_r_unknown != vnti.vnti_l_unknown && vnti.vnti_r_unknown >= 0 && vnti.vnti_l_unknown >= 0 &&
+	    vnti.vnti_r_unknown < 2 && vnti.vnti_l_unknown < 2, "the two unknowns are told apart");
+#else
+    CHECK(!is, "a reflect given on one port only is not the TRL reflect: the general method is used");
+#endif
+    CHECK(ghost_err_calls == 0, "classification is silent");
+    vnacal_new_free(vnp);
+    (void)vnacal_delete_parameter(vcp, r);
+    (void)vnacal_delete_parameter(vcp, l);
+    (void)vnacal_delete_parameter(vcp, g1);
+    (void)vnacal_delete_parameter(vcp, g2);
     vnacal_free(vcp);
 }
 
